@@ -25,7 +25,7 @@ RULE = ("(a) redis 2 consumers x 1 message: all C(10,5)=252 orders of the 5+5 ga
 ASSUMPTIONS = ["Redis and RabbitMQ are wire-level fakes; the gate delays a client's command at the server, which is what arbitrary network latency can do",
                "redis priority polling order pinned (priorities_distribution 1/0/0) in the exhaustive enumeration so that a take is exactly five commands"]
 EVAL_COUNTER = "scenarios_judged"
-REQUIRED = ["scenarios_judged", "exhaustive_orders", "gated_random_runs", "mem_offset_runs", "multi_worker_runs", "deliveries_seen", "relay_runs", "relay_returns", "relay_finish_while_other_holds", "relay_handover_patterns", "maintenance_while_held", "finish_while_take_in_flight", "stops_while_other_worker_runs", "handover_windows_seen"]
+REQUIRED = ["scenarios_judged", "exhaustive_orders", "gated_random_runs", "mem_offset_runs", "multi_worker_runs", "deliveries_seen", "relay_runs", "relay_returns", "relay_finish_while_other_holds", "relay_handover_patterns", "maintenance_while_held", "finish_while_take_in_flight", "stops_while_other_worker_runs", "handover_windows_seen", "timezone_offset_runs"]
 CASE_TIMEOUT = 150
 
 
@@ -50,6 +50,8 @@ def gen_cases(tier, seed):
     # redis: broker maintenance (run by every connect/disconnect of any client) while a message is held
     for i, to in enumerate([600.0, 86400.0, 90000.0, 604800.0, 86399.0, 172800.5] if tier == "thorough" else [600.0, 86400.0, 604800.0, 90000.0]):
         cases.append({"type": "maint", "kind": "redis", "timeout": to, "wait": [1.5, 3.0, 61.0][i % 3], "seed": rnd.randrange(10**6)})
+        # the same on a machine whose local time is ahead of / behind UTC (in-flight marks are UNIX times, "now" is local)
+        cases.append({"type": "maint", "kind": "redis", "timeout": to, "wait": [1.5, 3.0, 61.0][i % 3], "seed": rnd.randrange(10**6), "tz": ["MSK-3", "JST-9", "EST5", "NPT-5:45"][i % 4]})
     for kind in ("mem", "redis", "rabbit"):
         for i in range({"quick": 4, "thorough": 40}[tier]):
             cases.append({"type": "workers", "kind": kind, "k": rnd.choice([2, 3]), "n": rnd.choice([3, 8, 20]), "seed": rnd.randrange(10**6), "tl": rnd.choice([1, 3, 1000])})
@@ -773,7 +775,23 @@ def run_case(case):
     else:
         fn = {"gated": gated, "mem": mem_offsets, "workers": workers, "relay": relay, "maint": maint}[case["type"]]
         args = (out, stats, fps, samples) if case["type"] == "gated" else (out, stats, fps)
-        res = vl.run(lambda loop: fn(loop, case, *args), max_steps=6_000_000, seed=case["seed"])
+        import os
+        import time as _time
+
+        old_tz = os.environ.get("TZ")
+        if case.get("tz"):
+            os.environ["TZ"] = case["tz"]
+            _time.tzset()
+            stats["timezone_offset_runs"] += 1
+        try:
+            res = vl.run(lambda loop: fn(loop, case, *args), max_steps=6_000_000, seed=case["seed"])
+        finally:
+            if case.get("tz"):
+                if old_tz is None:
+                    os.environ.pop("TZ", None)
+                else:
+                    os.environ["TZ"] = old_tz
+                _time.tzset()
         if res.exc is not None:
             out.append(V("harness_or_api_error", case.get("kind", "mem"), case["type"], f"{type(res.exc).__name__}: {res.exc}"))
     if stats.get("unknown_server_commands"):
